@@ -94,9 +94,15 @@ impl PrettyPrint for MechSet {
 
 impl Hash for MechSet {
   fn hash<H: Hasher>(&self, state: &mut H) {
+    // Equal sets are equal whatever the insertion order, so the hash must not depend on it:
+    // hash every element on its own and combine the results commutatively.
+    let mut acc: u64 = 0;
     for x in self.set.iter() {
-      x.hash(state)
+      let mut h = std::collections::hash_map::DefaultHasher::new();
+      x.hash(&mut h);
+      acc = acc.wrapping_add(h.finish());
     }
+    state.write_u64(acc);
   }
 }
 
